@@ -208,7 +208,7 @@ std_harness!(8, fn c02_plain_t() { plain_kernel::<3, 5>(); });
 /// Request::new guarantees). Oracle: some label-boundary occurrence of fh in the host such that the remainder
 /// matches the URL text directly after that occurrence (prefix for la, equal-to-end for la+ra).
 /// Known role: the implementation cuts the URL after the FIRST occurrence of fh in the whole URL text.
-fn host_kind<const HN: usize, const RN: usize>(la: bool, ra: bool) {
+fn host_kind<const HN: usize, const RN: usize, const UN: usize>(la: bool, ra: bool) {
     let mut dr = crate::verif_shim::Draw::new();
     let hb: [u8; HN] = dr.bytes::<HN>();
     let hl: usize = dr.usize();
@@ -236,7 +236,7 @@ fn host_kind<const HN: usize, const RN: usize>(la: bool, ra: bool) {
     url.push_str(rh);
     url.push_str(tail);
     // copy of the URL bytes for the oracle (fixed-size, no heap read-back)
-    let mut ub = [0u8; 16];
+    let mut ub = [0u8; UN];
     let mut n = 0;
     ub[0] = b's'; ub[1] = b':'; ub[2] = b'/'; ub[3] = b'/';
     n += 4;
@@ -272,7 +272,7 @@ fn host_kind<const HN: usize, const RN: usize>(la: bool, ra: bool) {
     // first occurrence of fh in the whole URL text
     let mut first = usize::MAX;
     let mut q = 0;
-    while q < 16 {
+    while q < UN {
         if first == usize::MAX && q + fhb.len() <= n && eq_at(u, q, fhb) {
             first = q;
         }
@@ -311,8 +311,8 @@ fn host_kind<const HN: usize, const RN: usize>(la: bool, ra: bool) {
     core::mem::forget(part);
     core::mem::forget(url);
 }
-std_harness!(8, fn c02_host_left() { host_kind::<2, 3>(true, false); });
-std_harness!(8, fn c02_host_both() { host_kind::<2, 3>(true, true); });
+std_harness!(11, fn c02_host_left() { host_kind::<2, 3, 9>(true, false); });
+std_harness!(11, fn c02_host_both() { host_kind::<2, 3, 9>(true, true); });
 
 // ---------------------------------------------------------------------------------------------- C03.opts
 fn type_bit(t: u8) -> (request::RequestType, NetworkFilterMask) {
